@@ -1279,6 +1279,9 @@ func init() {
 				op.Key = Bytes(k[:rng.Range(1, len(k))])
 			}
 			sess = append(sess, op)
+			if rng.Chance(0.4) {
+				sess = append(sess, Op{K: "fold"}) // Fold next to the writers: one snapshot, too
+			}
 		}
 		c.Clients = append(c.Clients, sess)
 		if rng.Chance(0.2) {
